@@ -129,6 +129,9 @@ extern real_t verif_nan_value, verif_inf_value;
 #define SRC_READ_VEC(v, n) do { __CPROVER_assert(verif_thrown || (unsigned long)(n) <= (v).size, "read: count within the destination buffer"); \
     __typeof__(v) verif_h; unsigned long verif_n = (n); __CPROVER_assume(verif_h.size == (v).size); \
     __CPROVER_assume(__CPROVER_forall { unsigned long verif_q; (verif_q >= verif_n) ==> verif_h.data[verif_q] == (v).data[verif_q] }); (v) = verif_h; } while (0)
+/* stream.read(&x, n) of a scalar: x becomes arbitrary (file content, or indeterminate after a short read); a unit may
+   #undef and refine this with a ghost source that records whether a read came up short */
+#define SRC_READ_SCALAR(x, n) do { __typeof__(x) verif_h; (void)(n); (x) = verif_h; } while (0)
 #define OPQ_ELEM(c, i) ((void)(i), (c_opaque)0)
 #define OPQ_ID(x) ((const void *)(unsigned long)(x))
 /* v.data() / s.c_str(): only meaningful as the argument of a modelled library call */
